@@ -14,6 +14,9 @@
 #define NH 4
 #define NO_OUTLOG   /* this harness never looks at the raw output log */
 #include "world.h"
+/* the write-path obligations are also the transport leg of C07's round trip: what READ printed, sent back as a WRITE line, reaches
+ * the argument parser / the write handler byte for byte and as a WRITE */
+#define CHK67(c, msg) do { CHK(C06, c, msg); CHK(C07, c, msg); } while (0)
 
 #ifndef SHAPESTR
 #error "r_args needs SHAPESTR"
@@ -57,24 +60,25 @@ static void scen_run(void)
                 int is_test = (first == '?') && ((S.hm[ci] & H_TEST) || G_cmd[ci].var_num > 0);
                 if (ns >= cap) {
                         /* arguments do not fit (capacity includes the NUL): rejected, never cut */
-                        CHK(C06, W.hl_n == 0, "over-long argument list: no handler may run");
-                        CHK(C06, W.vw_n[0] == 0 && W.vw_n[1] == 0 && G_v0 == v0 && G_v1 == v1, "over-long argument list: no variable callback, no variable change");
-                        CHK(C06, W.units == 1 && W.u_len == 5 && G_pay[0] == 'E' && G_pay[4] == 'R', "over-long argument list is answered with ERROR");
+                        CHK67( W.hl_n == 0, "over-long argument list: no handler may run");
+                        CHK67( W.vw_n[0] == 0 && W.vw_n[1] == 0 && G_v0 == v0 && G_v1 == v1, "over-long argument list: no variable callback, no variable change");
+                        CHK67( W.units == 1 && W.u_len == 5 && G_pay[0] == 'E' && G_pay[4] == 'R', "over-long argument list is answered with ERROR");
                 } else if (!is_test) {
                         if (W.hl_n >= 1) {
                                 unsigned expect_args = 0;
-                                CHK(C06, W.hl_kind[0] == CAT_CMD_TYPE_WRITE && W.hl_cmd[0] == ci, "write handler of the addressed command");
-                                CHK(C06, G_wsize == ns, "write handler is told the exact argument length");
+                                CHK67( W.hl_kind[0] == CAT_CMD_TYPE_WRITE && W.hl_cmd[0] == ci, "write handler of the addressed command");
+                                CHK67( G_wsize == ns, "write handler is told the exact argument length");
                                 for (i = 0; i < L; i++)
                                         if (i < ns)
-                                                CHK(C06, G_wdata[i] == sent[i], "write handler sees the bytes that were sent (CR removed, case preserved)");
-                                CHK(C06, G_wdata[ns] == 0, "argument text is NUL-terminated");
+                                                CHK67( G_wdata[i] == sent[i], "write handler sees the bytes that were sent (CR removed, case preserved)");
+                                CHK67( G_wdata[ns] == 0, "argument text is NUL-terminated");
                                 if (G_cmd[ci].var_num > 0 && S.vacc[ci - 1] != CAT_VAR_ACCESS_READ_ONLY)
                                         expect_args = 1;
-                                CHK(C06, G_wargs == expect_args, "args_num equals the number of variables that were parsed");
+                                CHK67( G_wargs == expect_args, "args_num equals the number of variables that were parsed");
                         }
                         if (G_cmd[ci].var_num == 0)
-                                CHK(C06, (W.hl_n == 1) == ((S.hm[ci] & H_WRITE) != 0), "write handler runs iff present (variable-less command)");
+                                CHK67( (W.hl_n == 1) == ((S.hm[ci] & H_WRITE) != 0), "write handler runs iff present (variable-less command)");
+                        CHK67(W.units == 1 && !W.malformed, "a WRITE line is answered by a result code alone (it was served as another request type)");
                 }
                 WITNESS(W.hl_n == 1 && ns >= 2, "write-handler-saw-2-bytes");
                 WITNESS(ns >= cap, "over-long");
